@@ -32,6 +32,10 @@ def is_states_append(n: ast.AST) -> bool:
         return astx.is_self_attr(n.func.value, "election_states")
     if isinstance(n, ast.AugAssign) and astx.is_self_attr(n.target, "election_states"):
         return True
+    # for s in <sub>.election_states[...]: ...; self.election_states.append(s)   is   self.election_states += <that slice>
+    if isinstance(n, ast.For) and isinstance(n.target, ast.Name) and ".election_states" in astx.u(n.iter) and not any(isinstance(x, (ast.Break, ast.Continue, ast.Return)) for x in ast.walk(n)):
+        return any(isinstance(x, ast.Call) and isinstance(x.func, ast.Attribute) and x.func.attr == "append" and astx.is_self_attr(x.func.value, "election_states")
+                   and x.args and astx.is_name(x.args[0], n.target.id) for st in n.body for x in ast.walk(st) if not isinstance(st, (ast.If, ast.For, ast.While, ast.Try)))
     return False
 
 
@@ -87,6 +91,12 @@ def flatten_base(e: ast.AST, fnode: Optional[ast.AST] = None) -> ast.AST:
             dv = astx.unique_def(fnode, e.id)
             if dv is not None and _is_flatten(dv):
                 e, changed = dv, True
+                continue
+            # the same flattening as a loop:  L = []; for s in B: L.extend(s)   (or L += s)
+            from . import listform
+            b = listform.build_of(fnode, e)
+            if b is not None and b.kind == "flatmap" and not b.conditional and astx.u(b.elt) == b.var and b.loop is not None:
+                e, changed = b.iter, True
                 continue
         if isinstance(e, (ast.ListComp, ast.GeneratorExp, ast.SetComp)) and len(e.generators) == 2:
             g0, g1 = e.generators
